@@ -2809,3 +2809,162 @@ fn main() {
 
     run.finish();
 }
+
+// ---------------------------------------------------------------------------------------------
+// Engine E3 (libFuzzer): entry used by `fuzz/fuzz_targets/codecs_a.rs` — same checks, other driver
+// ---------------------------------------------------------------------------------------------
+
+/// Number of input layouts `fuzz_entry` knows (selector = first byte modulo this).
+pub const FUZZ_SELECTORS: u8 = 7;
+
+fn fuzz_verdict(c: Case) -> Result<(), String> {
+    match c.verdict {
+        vh::Verdict::Fail { signature, detail } => Err(format!("{signature}: {detail}")),
+        vh::Verdict::Pass | vh::Verdict::Inconclusive(_) => Ok(()),
+    }
+}
+
+/// Coverage-guided entry: `data[0] % FUZZ_SELECTORS` selects the decoder, the rest is its input,
+/// always through the RAW variants of the fuzz cases and the unchanged check functions.
+///
+/// | sel | input layout after the selector byte                         | check                |
+/// |-----|--------------------------------------------------------------|----------------------|
+/// | 0   | packet bytes (no key, node id 0)                             | `check_hdr_fuzz`     |
+/// | 1   | key(16) node-id(8, LE) packet bytes                          | `check_hdr_fuzz`     |
+/// | 2   | status report bytes                                          | `check_status_fuzz`  |
+/// | 3   | BDX message bytes (all six parsers see them)                 | `check_bdx_fuzz`     |
+/// | 4   | key(16) Check-In message bytes                               | `check_checkin_fuzz` |
+/// | 5   | counter(4, LE) challenge(8) hostile bytes for both decoders  | `check_mcsp`         |
+/// | 6   | the same bytes into 0, 2, 3 and the hostile part of 5        | all of the above     |
+///
+/// Inputs too short for their layout are skipped (`Ok`). `Err` is `"<signature>: <detail>"`;
+/// a panic of rs-matter propagates.
+pub fn fuzz_entry(data: &[u8]) -> Result<(), String> {
+    let Some((&sel, rest)) = data.split_first() else {
+        return Ok(());
+    };
+    match sel % FUZZ_SELECTORS {
+        0 => fuzz_verdict(check_hdr_fuzz(&HdrFuzz { src: Src::Raw(rest.to_vec()), key: None, node_id: 0 })),
+        1 => {
+            if rest.len() < 24 {
+                return Ok(());
+            }
+            let mut n = [0u8; 8];
+            n.copy_from_slice(&rest[16..24]);
+            fuzz_verdict(check_hdr_fuzz(&HdrFuzz {
+                src: Src::Raw(rest[24..].to_vec()),
+                key: Some(rest[..16].to_vec()),
+                node_id: u64::from_le_bytes(n),
+            }))
+        }
+        2 => fuzz_verdict(check_status_fuzz(&Src::Raw(rest.to_vec()))),
+        3 => fuzz_verdict(check_bdx_fuzz(&Src::Raw(rest.to_vec()))),
+        4 => {
+            if rest.len() < 16 {
+                return Ok(());
+            }
+            fuzz_verdict(check_checkin_fuzz(&CheckInFuzz { key: rest[..16].to_vec(), bytes: rest[16..].to_vec() }))
+        }
+        5 => {
+            if rest.len() < 12 {
+                return Ok(());
+            }
+            let mut c = [0u8; 4];
+            c.copy_from_slice(&rest[..4]);
+            fuzz_verdict(check_mcsp(&McspCase {
+                counter: u32::from_le_bytes(c),
+                challenge: rest[4..12].to_vec(),
+                hostile: rest[12..].to_vec(),
+            }))
+        }
+        _ => {
+            fuzz_verdict(check_hdr_fuzz(&HdrFuzz { src: Src::Raw(rest.to_vec()), key: None, node_id: 0 }))?;
+            fuzz_verdict(check_status_fuzz(&Src::Raw(rest.to_vec())))?;
+            fuzz_verdict(check_bdx_fuzz(&Src::Raw(rest.to_vec())))?;
+            fuzz_verdict(check_mcsp(&McspCase { counter: 0, challenge: vec![0u8; 8], hostile: rest.to_vec() }))
+        }
+    }
+}
+
+/// Seed inputs for the `codecs_a` fuzz target (used by `src/bin/mkcorpus.rs`): encodings, by
+/// rs-matter's own encoders, of legal cases from the strategies above, in the input layouts of
+/// `fuzz_entry`. Returns `(format label, input)`.
+///
+/// Layout 1 (keyed header) is seeded with packets encrypted under the *complement* of the key
+/// in the input: `check_hdr_fuzz` judges raw bytes as "not produced by the encoder", so a seed
+/// that authenticates would be a false alarm by construction.
+pub fn fuzz_seeds(n: usize, seed: u64) -> Vec<(String, Vec<u8>)> {
+    use proptest::strategy::ValueTree;
+    use proptest::test_runner::{Config, RngAlgorithm, TestRng, TestRunner};
+    let mut s = [0u8; 32];
+    s[..8].copy_from_slice(&seed.to_le_bytes());
+    let mut runner = TestRunner::new_with_rng(Config::default(), TestRng::from_seed(RngAlgorithm::ChaCha, &s));
+    fn sample<S: Strategy>(st: &S, runner: &mut TestRunner) -> Option<S::Value> {
+        st.new_tree(runner).ok().map(|t| t.current())
+    }
+    fn with_sel(sel: u8, parts: &[&[u8]]) -> Vec<u8> {
+        let mut v = vec![sel];
+        for p in parts {
+            v.extend_from_slice(p);
+        }
+        v
+    }
+    let mut out: Vec<(String, Vec<u8>)> = Vec::new();
+    let (plain, enc) = (hdr_case(false), hdr_case(true));
+    let (st, ini, acc, blk, ci, mc) = (status_case(), init_case(), accept_case(), block_case(), checkin_case(), mcsp_case());
+    for _ in 0..n {
+        if let Some(c) = sample(&plain, &mut runner) {
+            if let Ok(b) = encode_packet(&build_hdr(&c), &c.payload, None, c.node_id, PacketHdr::HDR_RESERVE, PacketHdr::TAIL_RESERVE) {
+                out.push(("hdr-plain".into(), with_sel(0, &[&b])));
+                out.push(("all-hdr".into(), with_sel(6, &[&b])));
+            }
+        }
+        if let Some(c) = sample(&enc, &mut runner) {
+            if let Some(key) = c.key.as_deref().and_then(key_arr) {
+                if let Ok(b) = encode_packet(&build_hdr(&c), &c.payload, Some(&key), c.node_id, PacketHdr::HDR_RESERVE, PacketHdr::TAIL_RESERVE) {
+                    let wrong: Vec<u8> = key.iter().map(|x| !x).collect();
+                    out.push(("hdr-keyed".into(), with_sel(1, &[&wrong, &c.node_id.to_le_bytes(), &b])));
+                }
+            }
+        }
+        if let Some(c) = sample(&st, &mut runner) {
+            if let Ok(b) = encode_status(&c, 8 + c.data.len()) {
+                out.push(("status".into(), with_sel(2, &[&b])));
+                out.push(("all-status".into(), with_sel(6, &[&b])));
+            }
+        }
+        if let Some(c) = sample(&ini, &mut runner) {
+            if let Ok(b) = encode_init(&c, init_len(&c)) {
+                out.push(("bdx-init".into(), with_sel(3, &[&b])));
+                out.push(("all-bdx".into(), with_sel(6, &[&b])));
+            }
+        }
+        if let Some(c) = sample(&acc, &mut runner) {
+            if let Ok(b) = encode_accept(&c, accept_len(&c)) {
+                out.push(("bdx-accept".into(), with_sel(3, &[&b])));
+            }
+        }
+        if let Some(c) = sample(&blk, &mut runner) {
+            if let Ok(b) = encode_block(&c, block_len(&c)) {
+                out.push(("bdx-block".into(), with_sel(3, &[&b])));
+            }
+        }
+        if let Some(c) = sample(&ci, &mut runner) {
+            if let Some(key) = key_arr(&c.key) {
+                if let Ok(b) = checkin_generate(&key, c.counter, &c.app_data, c.app_data.len() + 64) {
+                    out.push(("checkin".into(), with_sel(4, &[&key, &b])));
+                }
+            }
+        }
+        if let Some(c) = sample(&mc, &mut runner) {
+            if let Ok(ch) = <[u8; 8]>::try_from(&c.challenge[..]) {
+                let mut rsp = c.counter.to_le_bytes().to_vec();
+                rsp.extend_from_slice(&ch);
+                out.push(("mcsp-req".into(), with_sel(5, &[&c.counter.to_le_bytes(), &ch, &ch])));
+                out.push(("mcsp-rsp".into(), with_sel(5, &[&c.counter.to_le_bytes(), &ch, &rsp])));
+                out.push(("mcsp-hostile".into(), with_sel(5, &[&c.counter.to_le_bytes(), &ch, &c.hostile])));
+            }
+        }
+    }
+    out
+}
